@@ -211,6 +211,15 @@ def main(argv=None):
                         hits.append(f"{rel}:{sf.line_of(t.start)} `{t.text}`")
         except _LA as e:
             hits.append(f"lost anchor: {e}")
+        # the assumed contract "Db::lookup(&self, ..) is a function of (database, phrase)" rests on `&self` being immutable: no interior mutability
+        for rel2, bad in fs.get("no_interior_mutability", {}).items():
+            try:
+                sf2 = SourceFile(rel2, open(os.path.join(REPO, rel2), encoding="utf-8").read())
+                for t in sf2.toks:
+                    if t.kind == "ident" and t.text in bad:
+                        hits.append(f"{rel2}:{sf2.line_of(t.start)} `{t.text}` (interior mutability / global state next to an assumed pure lookup)")
+            except OSError as e:
+                hits.append(f"lost anchor: {e}")
         obligations += 1
         clause_ids.append(fs["cid"])
         if hits:
